@@ -224,7 +224,10 @@ pub struct Tex {
     pub w: usize,
     pub h: usize,
     pub fmt: Fmt,
+    /// top-level image, exactly fmt.payload_len(w, h) bytes
     pub payload: Vec<u8>,
+    /// bytes of the lower mip levels stored directly after the top level (CGFX only; empty = no mip chain)
+    pub mip_tail: Vec<u8>,
 }
 
 fn p32(b: &mut Vec<u8>, off: usize, v: u32) {
@@ -495,7 +498,11 @@ pub fn build_cgfx(texs: &[Tex], seed: u64) -> BuiltContainer {
                 b.push(0);
                 name_at[i] = p.place(&b, 1);
             }
-            B::Payload(i) => pay_at[i] = p.place(&texs[i].payload, if seed == 0 { 0x80 } else { 1 }),
+            B::Payload(i) => {
+                let mut blob = texs[i].payload.clone();
+                blob.extend_from_slice(&texs[i].mip_tail);
+                pay_at[i] = p.place(&blob, if seed == 0 { 0x80 } else { 1 })
+            }
         }
     }
     let mut b = p.bytes;
@@ -526,12 +533,12 @@ pub fn build_cgfx(texs: &[Tex], seed: u64) -> BuiltContainer {
         p32(&mut b, t + 12, (name_at[i] - (t + 12)) as u32);
         p32(&mut b, t + 24, texs[i].h as u32);
         p32(&mut b, t + 28, texs[i].w as u32);
-        p32(&mut b, t + 40, 1);
+        p32(&mut b, t + 40, if texs[i].mip_tail.is_empty() { 1 } else { 3 });
         p32(&mut b, t + 52, texs[i].fmt.code());
-        p32(&mut b, t + 68, texs[i].payload.len() as u32);
+        p32(&mut b, t + 68, (texs[i].payload.len() + texs[i].mip_tail.len()) as u32);
         p32(&mut b, t + 72, (pay_at[i] - (t + 72)) as u32);
     }
-    let ranges = (0..n).filter(|i| !texs[*i].payload.is_empty()).map(|i| (pay_at[i], pay_at[i] + texs[i].payload.len())).collect();
+    let ranges = (0..n).filter(|i| !texs[*i].payload.is_empty()).map(|i| (pay_at[i], pay_at[i] + texs[i].payload.len() + texs[i].mip_tail.len())).collect();
     BuiltContainer { bytes: b, payload_ranges: ranges, non_default_placement: seed != 0 }
 }
 
